@@ -12,16 +12,19 @@ import (
 	"github.com/oklog/ulid/v2"
 )
 
+// determineCommonPrefix returns the common prefix that key rolls up into: the
+// key up to and including the first occurrence of delimiter after prefix. It
+// returns nil when key does not start with prefix or does not contain the
+// delimiter after it.
 func determineCommonPrefix(prefix, key, delimiter string) *string {
-	prefixSegments := strings.Split(prefix, delimiter)
-	keySegments := strings.Split(key, delimiter)
-	if len(prefixSegments) >= len(keySegments) {
+	if delimiter == "" || !strings.HasPrefix(key, prefix) {
 		return nil
 	}
-	commonPrefix := ""
-	for idx := range prefixSegments {
-		commonPrefix += keySegments[idx] + delimiter
+	idx := strings.Index(key[len(prefix):], delimiter)
+	if idx < 0 {
+		return nil
 	}
+	commonPrefix := key[:len(prefix)+idx+len(delimiter)]
 	return &commonPrefix
 }
 
